@@ -69,6 +69,12 @@ def putAll : Pool → List Entry → Option (List Nat × Pool)
       | none => none
       | some (is, p'') => some (i :: is, p'')
 
+/-- the entry stored at index `i` -/
+def Pool.get (p : Pool) (i : Nat) : Option Entry :=
+  match p.entries.find? (fun x => x.2 == i) with
+  | some x => some x.1
+  | none => none
+
 /-- the entries in the order they are written to the class file (`inner`) -/
 def inner (p : Pool) : List Entry := (p.entries.map (·.1)).reverse
 
